@@ -728,6 +728,32 @@ func checkFoPair(c *Ctx, p foPair) {
 				if len(diffs) > 0 {
 					bad += " referenced functions differ (" + strings.Join(diffs, "; ") + ");"
 				}
+				// (c3) ordered skeleton
+				{
+					fs, gs := foSkeleton(l.all, cases, caseStructs), goSkeleton(g, caseStructs)
+					if strings.Join(fs, "\x00") == strings.Join(gs, "\x00") {
+						r.OK("C04.c3", p.label+"."+l.name, "skeleton", pos, sprintf("%d identifiers, operators, literals and constructs agree in order", len(fs)))
+					} else {
+						i := 0
+						for i < len(fs) && i < len(gs) && fs[i] == gs[i] {
+							i++
+						}
+						ctx := func(xs []string) string {
+							lo, hi := i-3, i+4
+							if lo < 0 {
+								lo = 0
+							}
+							if hi > len(xs) {
+								hi = len(xs)
+							}
+							if lo >= hi {
+								return "(end)"
+							}
+							return short(strings.Join(xs[lo:hi], " "), 120)
+						}
+						r.Bad("C04.c3", p.label+"."+l.name, "skeleton", pos, sprintf("the ordered sequence of identifiers, operators, literals and constructs differs at item #%d: the source reads … %s …, the generated Go … %s … — an operand, argument order, local, field or operator was changed on one side only", i+1, ctx(fs), ctx(gs)))
+					}
+				}
 			}
 			r.Check(bad == "", "C04.c", p.label+"."+l.name, "leaves", pos, sprintf("%d literals agree in order; construct counts and referenced functions agree", len(fl.lits)),
 				"construct counts differ between source and generated Go:"+bad+" a conditional, match, pipe or boolean operator exists on one side only")
@@ -749,6 +775,7 @@ func checkC04(c *Ctx) {
 	r.Rule("C04.a", "file sets agree (recipes ↔ sources ↔ generated files)", 30)
 	r.Rule("C04.b", "ordered declaration tables agree for every pair", 30)
 	r.Rule("C04.c", "per-definition literal sequences and construct counts agree", 400)
+	r.Rule("C04.c3", "per-definition ordered skeletons (identifiers outside type positions, operators, literals, if/match/not/pipe constructs) agree", 400)
 	r.Rule("C04.d", "generated files are gofmt-idempotent", 30)
 	r.Rule("C04.g", "every source and interface file fc reads is a sequence of well-formed top-level items (no stray text, no stray comment terminator, package_info bodies are declaration lines)", 35)
 	r.Rule("C04.e", "samples/README.md and pkg/pkg_all.foi are what their recipes produce from the checked-in files", 2)
@@ -1244,7 +1271,6 @@ func foFuncRefs(ts []fo.Tok, defName string, G map[string]bool, imports map[stri
 	return refs
 }
 
-
 func isFuncRefExpr(e ast.Expr, G map[string]bool, imports map[string]bool) bool {
 	switch x := e.(type) {
 	case *ast.Ident:
@@ -1256,7 +1282,6 @@ func isFuncRefExpr(e ast.Expr, G map[string]bool, imports map[string]bool) bool 
 	}
 	return false
 }
-
 
 var dirCasesCache = map[string]map[string]bool{}
 
